@@ -263,3 +263,25 @@ recycle1_harness!(c10_recycle1_arc_full_sync, ChannelMultiArcFullSync<u32, 2, 1>
 recycle1_harness!(c10_recycle1_arc_crossbeam, ChannelMultiArcCrossbeam<u32, 2, 1>, 0u32);
 recycle1_harness!(c10_recycle1_ogre_arc_atomic, ChannelMultiOgreArcAtomic<u32, 2, 1>, 0u32);
 recycle1_harness!(c10_recycle1_ogre_arc_full_sync, ChannelMultiOgreArcFullSync<u32, 2, 1>, 0u32);
+
+/// the interesting half of the history above, alone (cheaper): A leaves its event unconsumed
+#[cfg(kani)] #[kani::proof] #[kani::unwind(3)]
+#[kani::stub(std::hint::spin_loop, noop_spin)]
+#[kani::stub(reactive_mutiny::verif::StreamsManagerBase::wake_stream, noop_wake_stream)]
+#[kani::stub(<[u32]>::sort_unstable, insertion_sort)]
+#[kani::stub(<std::task::Waker as std::ops::Drop>::drop, stub_waker_drop)]
+fn c10_recycle1_leftover_arc_atomic() {
+    type C = ChannelMultiArcAtomic<u32, 2, 1>;
+    set_origins([0, 0, 0, 0]);
+    let ch = <C as MChan>::make();
+    let (a, ida) = <C as MChan>::listen(&ch);
+    let v1: u32 = kani::any();
+    ch.send1(v1);
+    drop(a);
+    assert!(ch.listeners() == 0, "C10: running-stream count after the listener was dropped");
+    let (b, idb) = <C as MChan>::listen(&ch);
+    kani::cover!(idb == ida, "the new listener recycles the id of a listener that left an event unconsumed");
+    assert!(ch.take(idb).is_none(), "C10: a new listener yielded an event that was sent before its creation (left over by an earlier listener)");
+    std::mem::forget(b);
+    std::mem::forget(ch);
+}
